@@ -11,11 +11,14 @@ try:
     for n in (2, 3):
         for spread in (1e-2, 1.0, 37.0):
             for pre in (True, False):
-                npt = n + 1
+              for npt in (n + 1, n + 2, 2 * n + 1):                 # interpolation and regression sets, with unequal sample counts
                 x0 = rng.normal(size=n)
                 m = Model(npt, x0, rng.normal(size=3), -1e20 * np.ones(n), 1e20 * np.ones(n), [], 1, precondition=pre)
                 for k in range(1, npt):
                     m.change_point(k, spread * rng.normal(size=n), rng.normal(size=3), k + 1)
+                for k in range(npt):
+                    for rep in range(int(rng.integers(0, 3))):
+                        m.add_new_sample(k, rvec_extra=rng.normal(size=3))
                 W, ls, rs = m.interpolation_matrix()
                 A = np.hstack([np.ones((npt, 1)), m.xpt_directions(include_kopt=True)])
                 out['tried'] += 1
